@@ -1,6 +1,8 @@
 import Firebolt.Spec.Receiver
 import Firebolt.Generated.Source
 import Firebolt.Expected.Source
+import Firebolt.Generated.Closure
+import Firebolt.Expected.Closure
 /-!
 # C10 — Message receiver: catch up first, then deliver exactly the unacked messages
 
@@ -394,5 +396,9 @@ theorem source_mrInitialized : GeneratedSrc.mrInitialized = ExpectedSrc.mrInitia
 theorem source_mrSetNotificationFunc : GeneratedSrc.mrSetNotificationFunc = ExpectedSrc.mrSetNotificationFunc := by rfl
 theorem source_newKafkaReceiver : GeneratedSrc.newKafkaReceiver = ExpectedSrc.newKafkaReceiver := by rfl
 theorem source_mrShutdown : GeneratedSrc.mrShutdown = ExpectedSrc.mrShutdown := by rfl
+
+/-! ### influence closure: the pinned functions, and every function of the repository that writes a struct field or package
+variable they read, are unchanged (digests regenerated from /repo on every run; a difference names the functions) -/
+theorem closure_unchanged : GeneratedClo.C10 = ExpectedClo.C10 := by rfl
 
 end Firebolt.C10
